@@ -35,6 +35,13 @@ def run(tier, seed, t0):
             for fl, be in (("optim", "spqlios-fma"), ("debug", "nayuki-portable")):
                 jobs.append(Job("%s-N%d-l%d-bg%d" % (fl, N, l, bg), "drv_c12", fl, be,
                                 ["--seed", seed, "--l", l, "--Bgbit", bg, "--N", N, "--log2count", 24 if thorough else 20], timeout=3600))
+    # the optimised portable build (what "optim" gives on a target without AVX2): every layout once, shard 0 of the sweeps above
+    for (l, bg, lg, ns) in plan:
+        jobs.append(Job("scalar-l%d-bg%d-0" % (l, bg), "drv_c12", "scalar", "nayuki-portable",
+                        ["--seed", seed, "--l", l, "--Bgbit", bg, "--log2count", lg if not thorough else min(lg, 28) if (l, bg) not in DEFAULTS else lg, "--shard", 0, "--nshards", ns],
+                        timeout=3600, meta={"layout": (l, bg), "lg": lg, "shard": 0}))
+    for N in (16, 512, 4096):
+        jobs.append(Job("scalar-N%d" % N, "drv_c12", "scalar", "nayuki-portable", ["--seed", seed, "--l", 3, "--Bgbit", 7, "--N", N, "--log2count", 20], timeout=3600))
     # one layout under ASan as well (scalar tail code, harness buffers)
     jobs.append(Job("asan-l3-bg7", "drv_c12", "asan", "spqlios-fma", ["--seed", seed, "--l", 3, "--Bgbit", 7, "--log2count", 20], timeout=1800))
 
@@ -53,6 +60,12 @@ def run(tier, seed, t0):
                     dig.setdefault(k, {})[r.job.flavor] = (s["digest"], r)
         compared = 0
         for k, d in sorted(dig.items()):
+            if "optim" in d and "scalar" in d:
+                compared += 1
+                if d["optim"][0] != d["scalar"][0]:
+                    viols.append(("decomp:vector-vs-scalar:l%d.Bg%d" % (k[0], k[1]),
+                                  {"layout": k[:2], "log2count": k[2], "shard": k[3], "optim_digest": d["optim"][0],
+                                   "optimised_portable_build_digest": d["scalar"][0]}, d["scalar"][1]))
             if "optim" in d and "debug" in d:
                 compared += 1
                 if d["optim"][0] != d["debug"][0]:
